@@ -150,7 +150,12 @@ class ActionContext(abc.ABC):
             return False
         if self.location_action.condition is None or len(self.location_action.condition.strip()) == 0:
             return True
-        result = self.trigger_context.evaluate_expression(self.location_action.condition)
+        try:
+            result = self.trigger_context.evaluate_expression(self.location_action.condition, raise_errors=True)
+        except BaseException:
+            # a condition that fails is not true (the text of the error could otherwise read as 'true', e.g. KeyError(1))
+            logging.debug("Condition %s failed to evaluate", self.location_action.condition, exc_info=True)
+            return False
         return str2bool(str(result))
 
 
